@@ -36,6 +36,10 @@ use libp2p_swarm::_address_translation;
 use super::dns;
 use crate::{META_QUERY_SERVICE_FQDN, SERVICE_NAME_FQDN};
 
+#[cfg(libp2p_verif)]
+#[path = "../../verif_proto_b.rs"]
+mod verif_proto_b;
+
 /// A valid mDNS packet received by the service.
 #[derive(Debug)]
 pub(crate) enum MdnsPacket {
